@@ -3,6 +3,7 @@ import BoolFn.Proofs.Oracle
 import BoolFn.Proofs.BddQuant
 import BoolFn.Proofs.BddOps
 import BoolFn.Proofs.QuantET
+import BoolFn.Proofs.Lits
 /-! # C06 — Existential and universal quantification eliminate variables one at a time
 
 Existentially (universally) quantifying a set of variables yields the function that is true at x
@@ -193,5 +194,109 @@ theorem all0_all1_wrong :
     let e : Expr Nat := Expr.mkXor (.lit 0) (.lit 1)
     let old := Expr.mkOr (e.restrict [(0, false), (1, false)]) (e.restrict [(0, true), (1, true)])
     old.den (fun _ => false) = false ∧ (e.existsQ [0, 1]).den (fun _ => false) = true := by decide
+
+end BoolFn.C06
+
+/-! ## Many eliminated inputs of a wide node of literals
+
+`law.forall.many` / `law.exists.many` (correspondence, sizes beyond the executable model) eliminate all
+literals but one of a wide disjunction / conjunction over distinct names, together with any number of
+names the expression does not mention. What must be left is proved here, for every width and every
+set of extra names. -/
+namespace BoolFn.C06
+open BoolFn
+variable {α : Type} [DecidableEq α]
+
+/-- hypotheses shared by the four laws: distinct names, the kept literal `k` is one of the literals,
+    every other literal's name is eliminated, `k`'s name is not -/
+structure ManyElim (lits : List (α × Bool)) (k : α × Bool) (vs : List α) : Prop where
+  nodup : (lits.map (·.1)).Nodup
+  mem : k ∈ lits
+  vsNodup : vs.Nodup
+  kept : k.1 ∉ vs
+  others : ∀ p ∈ lits, p ≠ k → p.1 ∈ vs
+
+omit [DecidableEq α] in
+theorem ManyElim.name_ne {lits : List (α × Bool)} {k : α × Bool} {vs : List α} (h : ManyElim lits k vs)
+    (p : α × Bool) (hp : p ∈ lits) (hne : p ≠ k) : p.1 ≠ k.1 := by
+  intro he
+  exact h.kept (he ▸ h.others p hp hne)
+
+/-- the assignment that gives every literal other than `k` the value `b` and agrees with `ρ` elsewhere -/
+def othersTo (lits : List (α × Bool)) (k : α × Bool) (b : Bool) (ρ : α → Bool) : α → Bool :=
+  force (lits.filter (· ≠ k)) b ρ
+
+theorem othersTo_outside {lits : List (α × Bool)} {k : α × Bool} {vs : List α} (h : ManyElim lits k vs)
+    (b : Bool) (ρ : α → Bool) (y : α) (hy : y ∉ vs) : othersTo lits k b ρ y = ρ y := by
+  apply force_outside
+  intro p hp he
+  obtain ⟨hpl, hpk⟩ := List.mem_filter.mp hp
+  exact hy (he ▸ h.others p hpl (by simpa using hpk))
+
+theorem othersTo_kept {lits : List (α × Bool)} {k : α × Bool} {vs : List α} (h : ManyElim lits k vs)
+    (b : Bool) (ρ : α → Bool) : othersTo lits k b ρ k.1 = ρ k.1 :=
+  othersTo_outside h b ρ k.1 h.kept
+
+theorem othersTo_other {lits : List (α × Bool)} {k : α × Bool} {vs : List α} (h : ManyElim lits k vs)
+    (b : Bool) (ρ : α → Bool) (p : α × Bool) (hp : p ∈ lits) (hne : p ≠ k) :
+    (othersTo lits k b ρ p.1 == p.2) = b := by
+  apply force_inside
+  · exact (List.Sublist.map _ List.filter_sublist).nodup h.nodup
+  · exact List.mem_filter.mpr ⟨hp, by simpa using hne⟩
+
+/-- **∀ over a wide disjunction**: what is left is the kept literal -/
+theorem forall_many_or {lits : List (α × Bool)} {k : α × Bool} {vs : List α} (h : ManyElim lits k vs)
+    (ρ : α → Bool) : ((Expr.or (lits.map litE)).forallQ vs).den ρ = (ρ k.1 == k.2) := by
+  rw [Bool.eq_iff_iff, expr_forall vs h.vsNodup]
+  simp only [Expr.den, denAny_lits, List.any_eq_true]
+  constructor
+  · intro hall
+    obtain ⟨p, hp, hv⟩ := hall (othersTo lits k false ρ) (fun y hy => othersTo_outside h false ρ y hy)
+    by_cases hpk : p = k
+    · subst hpk; rwa [othersTo_kept h] at hv
+    · rw [othersTo_other h false ρ p hp hpk] at hv; cases hv
+  · intro hk σ hσ
+    exact ⟨k, h.mem, by rw [hσ k.1 h.kept]; exact hk⟩
+
+/-- **∃ over a wide conjunction**: what is left is the kept literal -/
+theorem exists_many_and {lits : List (α × Bool)} {k : α × Bool} {vs : List α} (h : ManyElim lits k vs)
+    (ρ : α → Bool) : ((Expr.and (lits.map litE)).existsQ vs).den ρ = (ρ k.1 == k.2) := by
+  rw [Bool.eq_iff_iff, expr_exists vs h.vsNodup]
+  simp only [Expr.den, denAll_lits, List.all_eq_true]
+  constructor
+  · rintro ⟨σ, hσ, hall⟩
+    have := hall k h.mem
+    rwa [hσ k.1 h.kept] at this
+  · intro hk
+    refine ⟨othersTo lits k true ρ, fun y hy => othersTo_outside h true ρ y hy, fun p hp => ?_⟩
+    by_cases hpk : p = k
+    · subst hpk; rwa [othersTo_kept h]
+    · exact othersTo_other h true ρ p hp hpk
+
+/-- **∀ over a wide conjunction** with at least one other literal: the constant false -/
+theorem forall_many_and {lits : List (α × Bool)} {k : α × Bool} {vs : List α} (h : ManyElim lits k vs)
+    (q : α × Bool) (hq : q ∈ lits) (hqk : q ≠ k) (ρ : α → Bool) :
+    ((Expr.and (lits.map litE)).forallQ vs).den ρ = false := by
+  rw [Bool.eq_false_iff]
+  intro htrue
+  rw [expr_forall vs h.vsNodup] at htrue
+  have := htrue (othersTo lits k false ρ) (fun y hy => othersTo_outside h false ρ y hy)
+  simp only [Expr.den, denAll_lits, List.all_eq_true] at this
+  have hv := this q hq
+  rw [othersTo_other h false ρ q hq hqk] at hv
+  cases hv
+
+/-- **∃ over a wide disjunction** with at least one other literal: the constant true -/
+theorem exists_many_or {lits : List (α × Bool)} {k : α × Bool} {vs : List α} (h : ManyElim lits k vs)
+    (q : α × Bool) (hq : q ∈ lits) (hqk : q ≠ k) (ρ : α → Bool) :
+    ((Expr.or (lits.map litE)).existsQ vs).den ρ = true := by
+  rw [expr_exists vs h.vsNodup]
+  refine ⟨othersTo lits k true ρ, fun y hy => othersTo_outside h true ρ y hy, ?_⟩
+  simp only [Expr.den, denAny_lits, List.any_eq_true]
+  exact ⟨q, hq, othersTo_other h true ρ q hq hqk⟩
+
+/-- non-vacuity: `x | !y | z` with `y`, `z` and two foreign names eliminated -/
+example : ManyElim [("x", true), ("y", false), ("z", true)] ("x", true) ["u0", "y", "u1", "z"] :=
+  ⟨by decide, by decide, by decide, by decide, by decide⟩
 
 end BoolFn.C06
